@@ -99,7 +99,7 @@ var c07ToClasses = []string{"user", "user", "fresh", "other-prefix", "bad-checks
 	"module-opchild", "module-feecollector", "module-distribution", "module-minter"}
 
 var c07Payloads = []string{"none", "none", "garbage", "truncated", "badsig", "wrongseq", "wrongchain", "ok-send", "ok-send", "ok-multi", "fail-k", "unroutable",
-	"multi-signer", "self-withdraw", "self-exec", "gas-hog", "empty-tx"}
+	"multi-signer", "self-withdraw", "self-exec", "gas-hog", "empty-tx", "withdraw-then-fail", "send-and-withdraw", "reentrant-finalize"}
 
 func genC07Case(rt *rapid.T) *c07Case {
 	tc := newTwoChain(tcOpts{nExecutors: 1, fault: true})
@@ -123,7 +123,7 @@ func genC07Case(rt *rapid.T) *c07Case {
 	} else {
 		cs.desc += "fresh;"
 	}
-	cs.hookMaxGas = rapid.SampledFrom([]uint64{opchildtypes.DefaultHookMaxGas, opchildtypes.DefaultHookMaxGas, opchildtypes.DefaultHookMaxGas, 0, 1, 50_000}).Draw(rt, "hookMaxGas")
+	cs.hookMaxGas = rapid.SampledFrom([]uint64{opchildtypes.DefaultHookMaxGas, opchildtypes.DefaultHookMaxGas, opchildtypes.DefaultHookMaxGas, 0, 1, 500, 5_000, 50_000}).Draw(rt, "hookMaxGas")
 	params, _ := l2.K.GetParams(l2.Ctx)
 	params.HookMaxGas = cs.hookMaxGas
 	if err := l2.K.SetParams(l2.Ctx, params); err != nil {
@@ -133,7 +133,7 @@ func genC07Case(rt *rapid.T) *c07Case {
 	// recipient
 	cs.toClass = rapid.SampledFrom(c07ToClasses).Draw(rt, "toClass")
 	cs.payload = rapid.SampledFrom(c07Payloads).Draw(rt, "payload")
-	hookNeedsFunds := cs.payload == "ok-send" || cs.payload == "ok-multi" || cs.payload == "self-withdraw" || cs.payload == "fail-k" || cs.payload == "gas-hog" || cs.payload == "multi-signer"
+	hookNeedsFunds := cs.payload == "withdraw-then-fail" || cs.payload == "send-and-withdraw" || cs.payload == "ok-send" || cs.payload == "ok-multi" || cs.payload == "self-withdraw" || cs.payload == "fail-k" || cs.payload == "gas-hog" || cs.payload == "multi-signer"
 	if hookNeedsFunds && rapid.IntRange(0, 9).Draw(rt, "fundedHook") < 7 {
 		cs.toClass = "user" // the usual shape: the recipient signs a hook that spends what was just deposited
 	}
@@ -274,6 +274,33 @@ func genC07Case(rt *rapid.T) *c07Case {
 		} else {
 			cs.payload = "none"
 		}
+	case "withdraw-then-fail":
+		// an early message of the hook succeeds (a withdrawal), a later one fails: nothing of the hook may remain
+		if spendable.IsPositive() {
+			msgs := []sdk.Msg{opchildtypes.NewMsgInitiateTokenWithdrawal(cs.signer.Str, "l1-somebody-else", sdk.NewCoin(l2denom, one)), sendMsg(cs.signer, spendable.AddRaw(5))}
+			data = signTx(l2, msgs, []cryptotypes.PrivKey{cs.signer.Priv}, []uint64{num}, []uint64{seq}, henv.L2ChainID)
+		} else {
+			cs.payload = "none"
+		}
+	case "send-and-withdraw":
+		if spendable.GTE(math.NewInt(2)) {
+			msgs := []sdk.Msg{sendMsg(cs.signer, one), opchildtypes.NewMsgInitiateTokenWithdrawal(cs.signer.Str, "l1-somebody-else", sdk.NewCoin(l2denom, one))}
+			data = signTx(l2, msgs, []cryptotypes.PrivKey{cs.signer.Priv}, []uint64{num}, []uint64{seq}, henv.L2ChainID)
+			cs.sent[other.Str], cs.withdrawn = one, one
+			okHook = true
+		} else {
+			cs.payload = "none"
+		}
+	case "reentrant-finalize":
+		// signed by the executor: delivers this very deposit again from inside its own hook; the inner
+		// delivery must be a no-op, so the hook succeeds and the deposit is credited exactly once
+		ex := tc.executors[0]
+		l2.Fund(ex.Addr, coinOf("stake", 5))
+		en, es := accInfo(l2, ex)
+		inner := opchildtypes.NewMsgFinalizeTokenDeposit(ex.Str, sender.Str, to, sdk.Coin{Denom: l2denom, Amount: amt}, nextSeq, uint64(tc.l1.Ctx.BlockHeight()), "uinit", nil)
+		data = signTx(l2, []sdk.Msg{inner}, []cryptotypes.PrivKey{ex.Priv}, []uint64{en}, []uint64{es}, henv.L2ChainID)
+		cs.signer = ex
+		okHook = true
 	case "self-exec":
 		em, err := opchildtypes.NewMsgExecuteMessages(cs.signer.Str, []sdk.Msg{sendMsg(cs.signer, one)})
 		if err != nil {
@@ -309,16 +336,18 @@ func genC07Case(rt *rapid.T) *c07Case {
 		cs.expect = "B"
 	case len(data) == 0:
 		cs.expect = "A"
-	case cs.hookMaxGas <= 1:
+	case cs.hookMaxGas == 0:
 		cs.expect = "B"
+	case cs.payload == "empty-tx":
+		cs.expect = "either" // a transaction without messages and signers is a hook that trivially succeeds
+	case cs.hookMaxGas <= 500:
+		cs.expect = "B" // not even reading the signer's account fits
 	case okHook && cs.hookMaxGas == opchildtypes.DefaultHookMaxGas:
 		cs.expect, cs.exact = "A", true
 	case okHook:
 		cs.expect = "either"
-	case cs.payload == "empty-tx":
-		cs.expect = "either" // a transaction without messages and signers is a hook that trivially succeeds
 	case cs.payload == "gas-hog":
-		if cs.hookMaxGas == 50_000 {
+		if cs.hookMaxGas <= 50_000 {
 			cs.expect = "B"
 		} else {
 			cs.expect = "either"
@@ -557,6 +586,10 @@ func (cs *c07Case) liveness(l2 *henv.L2) error {
 
 const c07HandlerGas = 3_000_000
 
+// c07GasSlack: the reference run differs from the real one only by the size of the hook signer's account
+// record (public key and sequence set by the hook's ante steps), which the reclaim step reads back
+const c07GasSlack = 400
+
 // branch runs f on a throw-away copy of the L2 state.
 func branchL2(l2 *henv.L2, f func(b *henv.L2)) {
 	cctx, _ := l2.Ctx.CacheContext()
@@ -609,7 +642,7 @@ func c07Run(rt *rapid.T, rec *evid.Rec, withFaults bool) {
 		branchL2(l2, func(b *henv.L2) {
 			b.Fault.Reset(0, false)
 			rr := b.DeliverWithGas(&refMsg, limit)
-			if rr.OK() && gasUsed > rr.Gas+cs.hookMaxGas+5000 {
+			if rr.OK() && gasUsed > rr.Gas+cs.hookMaxGas+c07GasSlack {
 				rt.Fatalf("C07 violated: the hook cost %d gas on the outer meter, more than the configured %d\ncase: %s", gasUsed-rr.Gas, cs.hookMaxGas, cs.desc)
 			}
 		})
